@@ -80,8 +80,8 @@ Definition ctime_eqb (a b : ctime) : bool := tree_eqb (tree_of_time a) (tree_of_
 
 (* a time of day that lies exactly on what a 1/300 s tick decodes to (whole milliseconds, tick k <-> floor(10k/3) ms) *)
 Definition on_tick (ns : Z) : bool :=
-  (ns mod 1000000 =? 0) &&
-  (let ms := ns / 1000000 in let k := (3 * ms + 5) / 10 in (10 * k) / 3 =? ms).
+  let (ms, r) := Z.div_eucl ns 1000000 in
+  (r =? 0) && (let k := (3 * ms + 5) / 10 in (10 * k) / 3 =? ms).
 
 (* less than one tick (1/300 s) apart *)
 Definition within_tick (a b : Z) : bool := 300 * Z.abs (a - b) <? 1000000000.
